@@ -343,6 +343,9 @@ pub fn strategy(budget: u128) -> impl Strategy<Value = Config> {
         1 => pool_config(5..=6, 10..=14, 3),
         1 => pool_config(7..=10, 16..=26, 2),
         1 => pool_config(11..=16, 26..=40, 1),
+        // "elimination" tables: a known single-combo seat kills combos of the other seats, whose
+        // surviving combos come from a small common pool
+        2 => elimination_config(),
         // "blocker" ranges: 2-51 combos that all contain one card, alone or beside other players
         2 => (flop_strategy(), 0u8..52, prop_oneof![Just(2usize), Just(15usize), Just(16usize), Just(17usize), Just(51usize), 2usize..51], any::<u64>(), any::<bool>(), proptest::option::of(range_from(all_combos(), 1, 4)), any::<bool>()).prop_map(|(flop, card, size, seed, w, other, first)| {
             let b = holding_range(card, size, seed, w);
@@ -390,7 +393,7 @@ pub fn strategy(budget: u128) -> impl Strategy<Value = Config> {
 }
 
 pub fn run(ctx: &mut Ctx) {
-    ctx.rule = "proptest configurations (ordered flop, 0..=16 players, ranges built directly from combo subsets with weights {1,.5,.25,0} + arbitrary f32 in [2^-10,1] + 'nearly flat' ranges whose weights are neighbouring f32 values): card-pool ranges (frequent player-player blocking, pools may contain flop cards), one player of any size up to 1326, small free ranges, two identical ranges, 'blocker' ranges (2-51 combos that all contain one card), narrow beside wide (127/128/129/255/256/257/300/511/512/513/1023/1024/1025/1325/1326/random); tiny weights (around 2^-20..2^-24) when there are <= 4 players; sizes cut to a slot budget (cost bound). Oracle: multiset of yielded deals == reference enumeration (every legal deal once, nothing else), board = flop in order + turn/river, hole cards in player order, probability == product of the chosen weights (<= 4 players: exactly one of the f32 values some order/association of the multiplications gives, for one player the weight itself; more players: within (n+1) roundings), all cards distinct. Stream parsed_ranges: 1-3 players whose ranges are PARSED from generated token lists with overlapping tokens (the range's insertion history differs from a collected range of the same contents); same oracle. Stream huge_prefix: 3 ranges of 300-1326 combos each or 4 of up to 160 (up to 2.3e9 slots per position, far too large to drain): the first 1-3000 showdowns must be legal, distinct, ordered by position, start at the first position that has a legal deal, carry the right probability, and there must be as many of them as the window provably holds. Non-trivial = the reference excluded >= 1 candidate deal because two players collide AND some player has >= 2 combos; distinct by configuration.".into();
+    ctx.rule = "proptest configurations (ordered flop, 0..=16 players, ranges built directly from combo subsets with weights {1,.5,.25,0} + arbitrary f32 in [2^-10,1] + 'nearly flat' ranges whose weights are neighbouring f32 values): card-pool ranges (frequent player-player blocking, pools may contain flop cards), one player of any size up to 1326, small free ranges, two identical ranges, 'blocker' ranges (2-51 combos that all contain one card), 'elimination' tables (a known hand kills combos of the other seats, whose survivors come from a five-card pool), narrow beside wide (127/128/129/255/256/257/300/511/512/513/1023/1024/1025/1325/1326/random); tiny weights (around 2^-20..2^-24) when there are <= 4 players; sizes cut to a slot budget (cost bound). Oracle: multiset of yielded deals == reference enumeration (every legal deal once, nothing else), board = flop in order + turn/river, hole cards in player order, probability == product of the chosen weights (<= 4 players: exactly one of the f32 values some order/association of the multiplications gives, for one player the weight itself; more players: within (n+1) roundings), all cards distinct. Stream parsed_ranges: 1-3 players whose ranges are PARSED from generated token lists with overlapping tokens (the range's insertion history differs from a collected range of the same contents); same oracle. Stream huge_prefix: 3 ranges of 300-1326 combos each or 4 of up to 160 (up to 2.3e9 slots per position, far too large to drain): the first 1-3000 showdowns must be legal, distinct, ordered by position, start at the first position that has a legal deal, carry the right probability, and there must be as many of them as the window provably holds. Non-trivial = the reference excluded >= 1 candidate deal because two players collide AND some player has >= 2 combos; distinct by configuration.".into();
     ctx.assumptions = vec![
         "turn/river order inside the board is not demanded here (C04 does)".into(),
         "weights in {0} U [2^-10,1] (and a few values down to 2^-24 when there are <= 4 players) so that the product cannot leave the normal f32 range".into(),
